@@ -89,6 +89,11 @@ CHECKS = {
    technique="exhaustive product enumeration schemas x runtimes x all 16 generator option combinations through the plug-in built from the current sources, with compilation of every compilable option set",
    text="Every corpus file (feature matrix incl. map<bool>, extension kinds, name-collision files, proto3 optional) for every runtime flavour + the repository's google-v2 example schemas x apiversion x filepermessage x enableunsafedecode x specialname: each request run twice: no error, byte-identical responses, documented and pairwise distinct (case-insensitive) file names, one file per message, every file parses; per-message function bodies identical to single-file ones; unsafe option only adds SetMode lines; 5 option sets compiled with the runtime's message types.",
    note="No protoc in the sandbox: plug-ins are driven with hand-built CodeGeneratorRequests; third-party message types come from the pinned generators (committed under mc/gen). Invalid option values are outside the quantifier."),
+
+ "C11": dict(level="model_checking", design="DESIGN.md §7 C11",
+   technique="exhaustive product enumeration (flavours x values x API functions) differential against the owning runtimes + controlled-scheduler exploration of ALL interleavings of the first classification of a never-seen type (sync.Map behind the shim)",
+   text="Mode X: fast-marshal corpus types of gogo/legacy v1/gv2/gv1 and plain messages (google v2 well-known types and descriptors, gogo descriptor and self-marshaling types, hand-written Google V1 messages with and without XXX_ methods) x Marshal/Unmarshal (4 directions)/Size/Clone/Equal (all ordered pairs incl. cross-runtime)/Reset/MarshalText/MsgType/GrpcCodec against the owning runtime called directly; 9 unsupported values and typed-nil pointers: documented error / zero result, no panic. Mode S: 2-4 goroutines calling MsgType/Clone/Equal/HasExtension on a type evicted from the classification cache before every execution; every interleaving of the sync.Map operations (unbounded preemptions); every goroutine must see the right class and the final cache entry must be right.",
+   note="Decoded/cloned messages are compared bit-exactly through reflection (the runtimes' Equal treats NaN as unequal); csproto.Equal itself is compared with the runtime's Equal. Sequential consistency assumed; sync.Map internals are trusted."),
 }
 
 NOT_YET = {}
